@@ -463,6 +463,7 @@ inductive ArgKind where
   | usz   -- `extract_string(..).parse::<usize>()` with the generic integer error
   | kw    -- `extract_string(..).to_uppercase()`: a word compared as a keyword
   | u32   -- `extract_string(..).parse::<u32>()`
+  | pos   -- `extract_integer(..)?` followed by `if n < 1 { return Err("ERR syntax error") }` (SCAN / HSCAN / ZSCAN COUNT)
   deriving DecidableEq, Repr
 
 /-- an argument slot: its kind and (Lua translator) the error text used instead of the generic one -/
@@ -497,6 +498,9 @@ def Arg.extract (a : Arg) (v : Bytes) : Except BErr Tok :=
   | .u32 => match parseUnsigned u32Max (lossy v) with
     | .ok n => .ok (.n n)
     | .error _ => fail .notInt
+  | .pos => match parseI64 v with
+    | some i => if i < 1 then .error (.lit .syntax) else .ok (.i i)
+    | none => fail .notInt
 
 def aIntE (l : Lit) : Arg := { kind := .int, onErr := some l }
 def aStr : Arg := { kind := .str }
@@ -506,6 +510,7 @@ def aU64 : Arg := { kind := .u64 }
 def aFlt : Arg := { kind := .flt }
 def aKw : Arg := { kind := .kw }
 def aUsz : Arg := { kind := .usz }
+def aPos : Arg := { kind := .pos }
 
 /-- extract a fixed sequence of slots, left to right, first error wins; surplus/missing
     arguments are `unreachable` (the arity test has run) -/
@@ -1033,7 +1038,7 @@ def zrangebyscore (offset count : Arg) (missing : Lit) (unk : Fmt) : List Bytes 
 
 def scanOptTbl : List OptSpec :=
   [ { kw := s2b "MATCH", vals := [aStr], missing := .err .syntax },
-    { kw := s2b "COUNT", vals := [aInt], missing := .err .syntax } ]
+    { kw := s2b "COUNT", vals := [aPos], missing := .err .syntax } ]
 
 /-- SCAN cursor … / HSCAN key cursor … / ZSCAN key cursor … -/
 def scan (ctor : Bytes) (withKey : Bool) (unk : Fmt) (args : List Bytes) : BRes :=
